@@ -263,6 +263,32 @@ func runC08(tier string, seed uint64) {
 			s.PartRaw(b, "mp", uid, "1", [][2]string{{"Content-Length", "0"}}, []byte{}, -1)
 			snapshot()
 			_ = rng
+			// a multipart upload cannot be started with more metadata than an object may carry
+			{
+				ups := func() string {
+					r := do(s.h, Req{Method: "GET", Path: "/" + b + "?uploads"})
+					return fmt.Sprint(r.Status, xmlAll(string(r.Body), "UploadId"))
+				}
+				before := ups()
+				var rs []int
+				for _, tot := range []int{299, 300, 301, 400} {
+					pad := tot - 42 - len("X-Amz-Meta-Pad")
+					r := do(s.h, Req{Method: "POST", Path: "/" + b + "/mp-meta?uploads", Body: []byte{}, Header: [][2]string{{"X-Amz-Meta-Pad", strings.Repeat("p", pad)}}})
+					rs = append(rs, r.Status)
+					if r.Status == 200 {
+						if ids := xmlAll(string(r.Body), "UploadId"); len(ids) == 1 {
+							do(s.h, Req{Method: "DELETE", Path: "/" + b + "/mp-meta?uploadId=" + queryEscape(ids[0])})
+						}
+					}
+				}
+				after := ups()
+				msg := fmt.Sprintf("%s: initiating a multipart upload with metadata totalling limit-1 / limit / limit+1 / limit+100 answers %v; pending uploads before %s, after %s", kind, rs, before, after)
+				if rs[0] == 200 && rs[1] == 200 && rs[2] >= 400 && rs[3] >= 400 && before == after {
+					emit("c08", "GOOD", hs(msg))
+				} else {
+					emit("c08", "BAD", hs("S:metadata-limit-on-initiate "+msg))
+				}
+			}
 			// aws-chunked part uploads with a Content-MD5: the digest is that of the payload, not of its framing
 			// (on an upload of its own, outside the model's view)
 			if !noInt {
